@@ -39,6 +39,7 @@ import sys
 import termios
 import threading
 import time
+import weakref
 from concurrent.futures import wait as wait_futures
 
 DEADLINE = float(os.environ.get("VERIF_E3_DEADLINE", "60"))
@@ -99,6 +100,9 @@ def _in_pipe_write(thread):
     return False
 
 
+_STRANDED = set()      # feeder threads found stranded for good (they stay so: nobody will ever read their pipe)
+
+
 def _stranded(thread):
     """positive signal that a feeder thread of a closed queue will never end: it is inside a pipe write, no child
     process of ours exists (the workers, the only other holders of the read end, are gone) and it has not moved
@@ -106,10 +110,14 @@ def _stranded(thread):
     def live_children():
         trk = tracker_pids()
         return [p for p, st in children() if p not in trk and st not in ("Z", "X")]
+    if thread in _STRANDED:
+        return thread.is_alive()
     for _ in range(4):
         if not thread.is_alive() or not _in_pipe_write(thread) or live_children():
             return False
         time.sleep(0.25)
+    if thread.is_alive():
+        _STRANDED.add(thread)
     return thread.is_alive()
 
 
@@ -359,8 +367,19 @@ def lifecycle(spec, base, observe):
         elif kind == "dropped":
             if spec.get("nowait"):
                 ex.shutdown(wait=False)
+            alive = weakref.ref(ex)
             del ex
             gc.collect()
+            # positive signal that the release took effect: the executor object is gone (the manager thread
+            # holds a strong reference only within one turn of its loop).  If it is not -- something the caller
+            # kept, i.e. a future, references the executor -- the manager will never shut the pool down: that
+            # is not a missed deadline, the counts at "end" show the threads and children left behind.
+            t0 = time.time()
+            while alive() is not None and time.time() - t0 < 30:
+                time.sleep(0.01)
+                gc.collect()
+            if alive() is not None:
+                th = None
             join_manager(th, "the executor was released")
             ex = None
         else:
